@@ -71,7 +71,7 @@ const (
 	killMaxK = 4000
 )
 
-var childParams = storageParams{staleness: time.Nanosecond, timeout: 30 * time.Second, sizeFactor: 64}
+var childParams = storageParams{staleness: time.Nanosecond, timeout: 30 * time.Minute, sizeFactor: 64}
 
 // TestVerifC13Child is the child process of the kill-point unit.  It does
 // nothing unless C13_ROLE is set.
